@@ -3,7 +3,7 @@ package synct
 // component s_serverstop (C25, tie T2): a real grpc.Server with MaxConcurrentStreams(N) and real
 // ClientConns over bufconn; handlers log entry/exit and return only when told.
 //
-//	serve <N> [wait]      start the server (wait = grpc.WaitForHandlers(true))
+//	serve <N> [wait] [w<k>]  start the server (wait = grpc.WaitForHandlers(true), w<k> = grpc.NumStreamWorkers(k))
 //	dial c<i>             new ClientConn i, connected
 //	start c<i> r<j>       begin RPC j on conn i (client goroutine: NewStream, then RecvMsg until the end)
 //	cancel r<j>           the client cancels RPC j
@@ -151,8 +151,17 @@ func (s *serverstopH) Op(f []string) string {
 		var n uint32
 		fmt.Sscan(f[1], &n)
 		opts := []grpc.ServerOption{grpc.MaxConcurrentStreams(n), grpc.UnknownServiceHandler(s.handler)}
-		if len(f) == 3 && f[2] == "wait" {
-			opts = append(opts, grpc.WaitForHandlers(true))
+		for _, o := range f[2:] {
+			switch {
+			case o == "wait":
+				opts = append(opts, grpc.WaitForHandlers(true))
+			case len(o) > 1 && o[0] == 'w':
+				var k uint32
+				fmt.Sscan(o[1:], &k)
+				opts = append(opts, grpc.NumStreamWorkers(k))
+			default:
+				return "bad-op"
+			}
 		}
 		s.srv = grpc.NewServer(opts...)
 		s.lis = bufconn.Listen(1 << 16)
